@@ -943,6 +943,21 @@ func (t *FnTrans) ghostAt(where string) {
 					}
 				}
 			}
+			// "ghost before/after call X": arg0, arg1, ... name the actual arguments of the call (for a statically
+			// dispatched method call arg0 is the receiver)
+			if t.lastCall != nil && strings.Contains(where, " call ") {
+				for i, a := range t.lastCall.Args {
+					if v, ok := t.vals[a]; ok || isConst(a) {
+						if !ok {
+							v = t.val(a)
+						}
+						if s := t.termOfOpt(v); s != "" {
+							T := t.resolve(a.Type())
+							env.vars[fmt.Sprintf("arg%d", i)] = SVal{S: s, T: T, Sort: t.sortOf(T)}
+						}
+					}
+				}
+			}
 			t.ghostUpdate(g, env)
 		}
 	}
